@@ -912,23 +912,17 @@ def refresh_tables(chk, proof_ok):
             changed, info = G.main(quiet=True)
         finally:
             fcntl.flock(lockf, fcntl.LOCK_UN)
+    targets = common.prop_modules(chk.prop) if hasattr(common, 'prop_modules') else ['EpsieProps.' + chk.prop]
     if changed:
-        build = common.lean_build()
+        # only when the build step did not call the generator (or /repo changed in between)
+        build = common.lean_build(targets)
+        keep = [o for o in chk.obligations if str(o[0]).startswith('leanchecker')]
         chk.obligations = []
-        proof_ok = chk.lean(build)
+        proof_ok = chk.lean(build) and all(o[1] for o in keep)
+        chk.obligations += keep
         if not build.ok:
             print(build.log[-3000:])
         chk.notes.append('EpsieModel/Generated/Sharing.lean was stale: regenerated from /repo, rebuilt, re-audited')
-    if not proof_ok:
-        # the project build failed in another property's file, or this property's module is not (yet)
-        # imported by the root file: its own module (and everything it imports) may still check
-        whole = chk.build
-        mine = common.lean_build(['EpsieProps.' + chk.prop])
-        if mine.ok:
-            chk.obligations = []
-            proof_ok = chk.lean(mine)
-            chk.notes.append('project build: %s; EpsieProps.%s and its imports were built and audited on their own' % (
-                'ok' if whole.ok else 'failed in %s' % (whole.failed_modules or 'another module'), chk.prop))
     global _VARIANT
     v = _VARIANT = info['variant']
     excluded = []
